@@ -385,3 +385,16 @@ func SpecWireLen(w Wire, k int) uint64 {
 
 // SpecHmacInit: initial state of an HMAC keyed with key (uninterpreted).
 func SpecHmacInit(key []byte) int { panic("ghost") }
+
+// ---------------------------------------------------------------------------------------
+// URI form (C14): the bytes printed verbatim in a generic component are exactly the NDN URI "unreserved" set
+// ALPHA / DIGIT / "-" / "." / "_" / "~" (NDN packet format, URI scheme); every other byte is percent-escaped, which is
+// what makes the textual form decodable. unicode.IsDigit on a Latin-1 code point is the ASCII digit test (A-DEP,
+// deps/unicode.contract).
+// ---------------------------------------------------------------------------------------
+
+//@ func IsAlphabet
+//@   ensures result == (('a' <= r && r <= 'z') || ('A' <= r && r <= 'Z'))
+
+//@ func isLegalCompText
+//@   ensures result == (('a' <= b && b <= 'z') || ('A' <= b && b <= 'Z') || ('0' <= b && b <= '9') || b == '-' || b == '_' || b == '.' || b == '~')
